@@ -714,16 +714,43 @@ def space(ctx):
     }
 
 
-def finalize(ctx, acc):
-    # key minimisation: a key whose extras are a strict superset of another key with the same aspect:feature is the same
-    # defect seen through an irrelevant additional feature
-    keys = {k: split_key(k) for k in acc.viol}
-    for k, (base, ex) in sorted(keys.items()):
-        for k2, (base2, ex2) in keys.items():
-            if k2 != k and k2 in acc.viol and k in acc.viol and base2 == base and ex2 < ex:
-                acc.viol[k2]["count"] += acc.viol[k]["count"]
-                del acc.viol[k]
+def _plain_concrete(feature):
+    return feature.startswith("plain[") and "ref" not in feature and "+" not in feature
+
+
+def minimise_keys(viol):
+    """Key minimisation (input side): a violation key is  aspect:feature|extra|extra...  .  Key K is the same defect seen
+    through irrelevant additional features, and is folded into K2, when both have the same aspect and
+      * the same entry feature and K2's extras are a strict subset of K's, or
+      * K2's entry feature is the plainest one (a plain entry with a concrete value) and K2's extras are a subset of K's:
+        what already fails for a plain entry under conditions X explains every other entry kind under conditions >= X
+        (plain entries of different value classes under the same conditions fold into the alphabetically first).
+    A key with an unusual entry feature (compact, complex, reference) never swallows a key with another feature."""
+    parsed = {}
+    for k in viol:
+        base, ex = split_key(k)
+        aspect, feature = base.split(":", 1)
+        parsed[k] = (aspect, feature, ex)
+    drop = {}
+    for k, (a, f, ex) in parsed.items():
+        for k2, (a2, f2, ex2) in sorted(parsed.items(), key=lambda kv: (len(kv[1][2]), kv[0])):
+            if k2 == k or a2 != a:
+                continue
+            exx = ex | ({"enc=off16", "enc=sparse"} if "enc=percfg" in ex else set())   # per-config encodings use both
+            if (f2 == f and ex2 < exx) or (_plain_concrete(f2) and not _plain_concrete(f) and ex2 <= exx) or \
+                    (_plain_concrete(f2) and _plain_concrete(f) and f2 != f and (ex2 < exx or (ex2 == exx and f2 < f))):
+                drop[k] = k2
                 break
+    for k, k2 in drop.items():
+        while k2 in drop:
+            k2 = drop[k2]
+        viol[k2]["count"] += viol[k]["count"]
+    for k in drop:
+        del viol[k]
+
+
+def finalize(ctx, acc):
+    minimise_keys(acc.viol)
     # vacuity self-test: the judge must see a deliberately wrong model
     import copy
     spec = build_b(("B", "integer", "p-int", "c-int", "sparse", 1, 0))
